@@ -220,6 +220,18 @@ def run_vrt_scenario(exe, scen, job, deadline_abs, outdir):
         return {'scenario': scen, 'harness_error': 1, 'harness_error_msg': (r.stderr or '')[-2000:], 'rc': r.returncode}
     d = json.load(open(out))
     d['rc'] = r.returncode
+    if job.get('race_oracle') == 'user' and d.get('violations') and all(v['sig'].startswith('race/') for v in d['violations']):
+        # user-side mode: races of the library's own state are left to C03. When such races are all this run reported they have
+        # nevertheless ended executions (and, past the cap, the scenario): whatever else is wrong in the scenario was never reached.
+        # The scenario is run again without the race oracle and that run is the one that is judged.
+        if not any('[user-side access involved]' in canon_signature(exe, v['sig'], v['detail'])[1] for v in d['violations']):
+            internal = sum(v.get('count', 1) for v in d['violations'])
+            cmd2 = [c for c in cmd if c != '--race-oracle']
+            r2 = sh(cmd2)
+            if r2.returncode in (0, 1):
+                d = json.load(open(out))
+                d['rc'] = r2.returncode
+                d['library_internal_race_reports_in_first_pass'] = internal
     return d
 
 
@@ -307,6 +319,8 @@ def main():
                     jstat['not_exhaustive'].append(d['scenario'] + ' (not started: budget used up)')
                     exhaustive = False
                     continue
+                if d.get('library_internal_race_reports_in_first_pass'):
+                    jstat['library_internal_races_left_to_C03'] = jstat.get('library_internal_races_left_to_C03', 0) + d['library_internal_race_reports_in_first_pass']
                 jstat['executions'] += d['executions_total']
                 jstat['states'] += d['states']
                 jstat['transitions'] += d['transitions_total']
@@ -339,7 +353,7 @@ def main():
                         jstat['library_internal_races_left_to_C03'] = jstat.get('library_internal_races_left_to_C03', 0) + v['count']
                         continue
                     raw_viol.append(dict(engine='vrt', exe=exe, scenario=d['scenario'], sig=sig, detail=det, schedule=v['schedule'],
-                                         racy_pcs=','.join([x for x in d['racy_pcs'].split(',') if x][:v.get('nracy', 10**6)]), race_oracle=int(bool(job.get('race_oracle'))), spurious=int(bool(job.get('spurious'))), count=v['count'],
+                                         racy_pcs=','.join([x for x in d['racy_pcs'].split(',') if x][:v.get('nracy', 10**6)]), race_oracle=int(bool(job.get('race_oracle')) and not d.get('library_internal_race_reports_in_first_pass')), spurious=int(bool(job.get('spurious'))), count=v['count'],
                                          log=v['log'], raw_sig=v['sig']))
             agg['states'] += jstat['states']
             agg['transitions'] += jstat['transitions']
